@@ -26,7 +26,8 @@ RULE = ("TLC explores the abstract cache-aside store (CacheAside.tla) over all s
 FAM = "cache"
 PKG = "core/stores/cache"
 WORLD = "zz_verif_cache_world_test.go"
-DRV = [WORLD, "zz_verif_cache_node_test.go"]
+WORLD_WB = ["zz_verif_cache_wb_test.go", "zz_verif_cache_nowb_test.go"]   # white-box part / black-box stand-in (tags)
+DRV = [WORLD] + WORLD_WB + ["zz_verif_cache_node_test.go"]
 SQLC = "core/stores/sqlc"
 SQLC_DRV = ["zz_verif_cache_sqlc_test.go"]
 MONC = "core/stores/monc"
@@ -36,15 +37,23 @@ TR = ("CacheAsideTrace", "CacheAsideTrace.cfg")
 
 def _world_overlay():
     """the world helper compiled into core/stores/cache as a non-test file (drivers of other packages use it)"""
-    return {os.path.join(vlib.REPO, PKG, "zz_verif_cache_world.go"): os.path.join(vlib.OVERLAY, PKG, WORLD)}
+    ov = {os.path.join(vlib.REPO, PKG, "zz_verif_cache_world.go"): os.path.join(vlib.OVERLAY, PKG, WORLD)}
+    for f in WORLD_WB:
+        ov[os.path.join(vlib.REPO, PKG, f.replace("_test.go", ".go"))] = os.path.join(vlib.OVERLAY, PKG, f)
+    return ov
 
 
 def _validate(run, tr, label):
     """Histories that may show the known finding (reset carries kf) are validated one by one, the rest in bulk."""
     plain, kf, cur = [], [], None
-    for ln in open(tr):
-        if not ln.strip():
-            continue
+    body = [ln for ln in open(tr) if ln.strip()]
+    if body and all('"e":"info"' in ln and '"skipped"' in ln for ln in body):
+        # the driver skipped itself: the white-box part of the world helper does not compile against this tree
+        vlib.log("  NOTE %s: driver skipped itself (the cleaner of core/stores/cache cannot be driven on this tree); "
+                 "not validated" % label)
+        run.extra.setdefault("skipped_drivers", []).append({"label": label, "why": "white-box world helper unavailable"})
+        return 0
+    for ln in body:
         if '"e":"reset"' in ln:
             cur = kf if '"kf":1' in ln else plain
         if cur is None:
